@@ -602,6 +602,30 @@ def t_a2b(ctx: Ctx, rule: str) -> None:
                 if not (isinstance(nxt.value, ast.Call) and call_name(nxt.value) == "run_test_node"
                         and ast.unparse(nxt.value.args[0]) == root):
                     problems.append(("a suspension point lies between dropping the reservation and entering the second creation step", view))
+    # a first step that did not succeed is a try of the object root: its result must end up in the root's results, otherwise the
+    # try is never counted (a single worker never retries; with the reservation two workers retry each other's pending try forever)
+    n_fail, lost = 0, None
+    for view in views:
+        aws = [(i, a) for i, a in view.awaits()]
+        if len(aws) != 1 or view.path.exit != "return":
+            continue
+        a1, first = aws[0]
+        pre = ast.unparse(first.value.args[0]) if isinstance(first.value, ast.Call) and first.value.args else None
+        if pre is None or pre == root:
+            continue
+        n_fail += 1
+        alias = any(isinstance(val, ast.Attribute) and val.attr == "results" and ast.unparse(val.value) == root and ast.unparse(tgt.value) == pre
+                    for i, s_ in view.stmts() for tgt, val in stores_attr(s_, "results") if i < a1)
+        moved = any(i > a1 and ((isinstance(s_, ast.AugAssign) and ast.unparse(s_.target) == f"{root}.results" and f"{pre}.results" in ast.unparse(s_.value))
+                                or (isinstance(s_, ast.Expr) and isinstance(s_.value, ast.Call) and call_name(s_.value) == "extend" and ast.unparse(s_.value.func.value) == f"{root}.results"
+                                    and f"{pre}.results" in ast.unparse(s_.value)))
+                    for i, s_ in view.stmts())
+        if not alias and not moved:
+            lost = view
+    ctx.record(rule + "f", "PROV", TTN, "a failed first creation step leaves its result on the object root's results (the try is counted)", lost is None and n_fail >= 1,
+               {"paths_returning_after_the_first_step": n_fail, **({"path": lost.path.describe()[-10:]} if lost else {})},
+               "" if lost is None and n_fail >= 1 else "when the configuration step of an object creation fails nothing is recorded on the object root: the try is never counted — one worker never retries "
+               "despite max_tries, two workers keep retrying each other's pending try without end")
     ctx.expect_sites(rule, n, 1, TTN, False, "awaiting path of traverse_terminal_node")
     construct = "pre_node.results = list(test_node.results)" if problems and "neither an alias" in problems[0][0] else \
         "first creation step visible on the object root's results (alias or UNKNOWN reservation) until the second step is entered"
@@ -725,12 +749,15 @@ def t_o1(ctx: Ctx, rule: str) -> None:
     for view in views:
         for i, s in view.stmts(lambda s: isinstance(s, ast.AugAssign) and isinstance(s.target, ast.Attribute) and s.target.attr == "results"):
             n2 += 1
-            req = ("atom", f"empty({view.canon_text(s.target, i)})")
+            # the retry decision counts shared_results (own + every bridged copy): the replayed results must enter that multiset once,
+            # i.e. only while NO copy has results yet (a test on the node's own list lets every worker's copy add them again)
+            node_txt = ast.unparse(s.target.value)
+            req = ("atom", f"empty({node_txt}.shared_results)")
             if not norm.implies(view.premise(i, 0), req):
                 bad = view
     ctx.expect_sites(rule + "b", n2, 1, TN, False, "results += previous_results")
-    ctx.record(rule + "b", "GUARD", TN, "test_node.results += previous_results only under len(test_node.results) == 0",
-               bad is None, {"paths": n2}, "" if bad is None else "previous results are added to a node that already has results")
+    ctx.record(rule + "b", "GUARD", TN, "test_node.results += previous_results only while the node and all its bridged copies have no results (len(test_node.shared_results) == 0)",
+               bad is None, {"paths": n2}, "" if bad is None else "previous (replayed) results are added per worker copy: the shared count sees each previous result once per worker and the retry budget shrinks with the number of workers")
 
 
 # ---------------------------------------------------------------------- T.S1
